@@ -142,6 +142,7 @@ PROPS.update({
         gens=[('sp', 'small', 2500, 40000, 8), ('sp', 'parallel', 60, 600, 40)],
         spec_fields=[r'ok\.ss', r'ok\.ms', r'ok\.ap'],
         model_fields=[r'build', r'ss', r'ms', r'ap'],
+        impl_checks=[('f64cert', '1')],
         nontrivial=sp_nontrivial, hist=sp_hist, rule=SP_RULE, assumptions=COMMON_ASSUME,
     ),
     'C08': dict(
@@ -150,6 +151,7 @@ PROPS.update({
         gens=[('sp', 'small', 2500, 40000, 7), ('sp', 'parallel', 80, 800, 30)],
         spec_fields=[r'ok\.ss', r'ok\.ms', r'ok\.ap', r'ok\.inv'],
         model_fields=[r'build', r'ss', r'ms', r'ap', r'inv'],
+        impl_checks=[('f64cert', '1')],
         nontrivial=sp_nontrivial, hist=sp_hist, rule=SP_RULE, assumptions=COMMON_ASSUME,
     ),
 })
@@ -207,7 +209,7 @@ PROPS.update({
         extra_modules=['GraphrsModel.Props.C10Model', 'GraphrsModel.Props.C10EqualSize'],
         gens=[('comp', 'small', 2500, 40000, 10), ('comp', 'small', 150, 3000, 24), ('comp', 'small', 10, 150, 40)],
         spec_fields=[r'ok\.cc', r'ok\.wcc', r'ok\.scc', r'ok\.ncc', r'ok\.num', r'ok\.bfs', r'ok\.eq'],
-        model_fields=[r'build', r'cc', r'wcc', r'scc', r'ncc', r'num', r'eq'],
+        model_fields=[r'build', r'cc', r'wcc', r'scc', r'ncc', r'num', r'eq', r'agree\.bfsorder'],
         impl_checks=[('bfssame', '1')],
         nontrivial=lambda req, I: any(',' in I.get(f, '') for f in ('cc', 'wcc', 'scc')),
         hist=lambda req, I: graph_hist(req, I) + ['k.' + req.split()[-1]] + ['ncomp.%d' % (len(I.get(f, '').split())) for f in ('cc', 'wcc') if not I.get(f, 'E').startswith('E')],
